@@ -227,7 +227,11 @@ func c08EncodeNamed(res *vlib.Result, attrNames []string, exprs []string, st c09
 		names = append(names, n)
 	}
 	if pad {
-		_ = ad.Set("Pad", strings.Repeat("q", 20000))
+		n := 20000
+		if len(attrNames) > 0 && attrNames[0] == "HugePadFirst" {
+			n = 1<<20 + 5000 // a single attribute longer than the largest frame
+		}
+		_ = ad.Set("Pad", strings.Repeat("q", n))
 		names = append(names, "Pad")
 	}
 	if private {
@@ -439,7 +443,7 @@ func c08Extremes() []string {
 func C08Plan() *vlib.Plan {
 	p := &vlib.Plan{
 		Property: "C08", Level: "exploration",
-		Rule:   "E-ENUM. Decode side: every string of length <= L over the 17-symbol alphabet {0 1 9 - + . e E x p _ \" \\ a t T space} as the value text of one attribute, framed by the reference and read by the real GetClassAd; oracle = full parser (same structure, or same defined value) / independent old-style lone-string rule / must reject; plus ~3000 decorated numerals at and around 2^31, 2^32, 2^53, 2^63, 2^64, 2^127, 2^128, 10^17..10^22 and the float64 limits. Encode side: every expression of a bounded grammar (literals incl. integer/real extremes, strings with quotes/backslashes/controls/UTF-8, refs, unary, binary, ?:, strcat, lists, nested ads; depth <= D) in ads of 1-2 attributes, with/without type names, single- and multi-frame, 3 stream states, through GetClassAd / GetClassAdRaw+ParseOld / SkipClassAdRaw each followed by a sentinel; plus 15 attribute names that resemble wire-layout pieces or sender-added attributes (ServerTime, ZKM, ZKMode, zkm, MyTypeX, ...) x 6 values x {without, with} the sender's ServerTime option through the same three receivers; every non-padded ad is also read by the bounded receiver GetClassAdWithMaxSize(b) for every budget b from 1 to past the ad's size (refuse, or return the whole ad having consumed exactly its bytes). Non-trivial = text accepted by the parser (decode) / ad sent (encode).",
+		Rule:   "E-ENUM. Decode side: every string of length <= L over the 17-symbol alphabet {0 1 9 - + . e E x p _ \" \\ a t T space} as the value text of one attribute, framed by the reference and read by the real GetClassAd; oracle = full parser (same structure, or same defined value) / independent old-style lone-string rule / must reject; plus ~3000 decorated numerals at and around 2^31, 2^32, 2^53, 2^63, 2^64, 2^127, 2^128, 10^17..10^22 and the float64 limits. Encode side: every expression of a bounded grammar (literals incl. integer/real extremes, strings with quotes/backslashes/controls/UTF-8, refs, unary, binary, ?:, strcat, lists, nested ads; depth <= D) in ads of 1-2 attributes, with/without type names, single- and multi-frame (incl. one attribute of 1 MiB + 5000 bytes), 3 stream states, through GetClassAd / GetClassAdRaw+ParseOld / SkipClassAdRaw each followed by a sentinel; plus 15 attribute names that resemble wire-layout pieces or sender-added attributes (ServerTime, ZKM, ZKMode, zkm, MyTypeX, ...) x 6 values x {without, with} the sender's ServerTime option through the same three receivers; every non-padded ad is also read by the bounded receiver GetClassAdWithMaxSize(b) for every budget b from 1 to past the ad's size (refuse, or return the whole ad having consumed exactly its bytes). Non-trivial = text accepted by the parser (decode) / ad sent (encode).",
 		Assume: []string{"reference = github.com/PelicanPlatform/classad ParseExpr (the 'full parser' of the statement)"},
 	}
 	p.Gen = func(tier string, yield func(vlib.Case)) {
@@ -496,6 +500,17 @@ func C08Plan() *vlib.Plan {
 			res.Sample = map[string]any{"texts": res.Evals}
 			return res
 		}})
+		// encode side: an ad with one attribute longer than the largest frame (1 MiB), in every
+		// stream state: the typed layer must split it across frames itself
+		for st := stNoKey; st <= stKeyedClear; st++ {
+			st := st
+			yield(vlib.Case{ID: fmt.Sprintf("encode-huge-attribute/%v", st), Run: func() *vlib.Result {
+				res := &vlib.Result{}
+				c08EncodeNamed(res, []string{"HugePadFirst"}, []string{"1"}, st, true, true, false, false)
+				c08EncodeNamed(res, []string{"HugePadFirst", "Tail"}, []string{`"x"`, "2"}, st, true, false, false, false)
+				return res
+			}})
+		}
 		// encode side: attribute names that look like wire-layout pieces, each with a few values
 		for st := stNoKey; st <= stKeyedClear; st++ {
 			st := st
